@@ -89,6 +89,9 @@ def detect(meta, pid, extra, patch, src, dst):
     finally:
         subprocess.run(["git", "-C", "/repo", "checkout", "--", "."], check=True)
         subprocess.run(["git", "-C", "/repo", "clean", "-fdq"], check=True)
+        # the generated Lean facts must not stay behind from the changed tree
+        subprocess.run(["/verif/harness/bin/extract", "/repo", "/verif/lean/XixiKV/Generated"], capture_output=True)
+        subprocess.run(["/verif/harness/bin/trans", "/repo", "/verif/lean/XixiKV/Generated/Trans.lean"], capture_output=True)
     meta["detection"] = det
     meta["ran"].append("git -C /repo apply patch.diff; bin/check <id> quick; git -C /repo checkout -- .")
     os.makedirs(dst, exist_ok=True)
